@@ -138,11 +138,27 @@ def specs(deep: bool) -> list[dict]:
         dict(name="z", grid_n=3, n_mazes=4, seed=0, maze_ctor="gen_dfs"),
         # a fractional argument (resolved against the grid size inside the generator; the request must keep the fraction)
         dict(name="p", grid_n=4, n_mazes=4, seed=5, maze_ctor_kwargs=dict(accessible_cells=0.5)),
+        # arguments that mean something else as a float than as the equal integer (1.0 = every cell / full depth, 1 = one cell / depth one;
+        # the integer twins are used in histories only: a one-cell maze has no two endpoints and generate raises the documented ValueError)
+        dict(name="q", grid_n=4, n_mazes=4, seed=3, maze_ctor_kwargs=dict(accessible_cells=1.0)),
+        dict(name="r", grid_n=4, n_mazes=4, seed=3, maze_ctor_kwargs=dict(max_tree_depth=1.0)),
     ]
     if deep:
         S += [dict(name="k", grid_n=6, n_mazes=8, seed=99, maze_ctor="gen_wilson", applied_filters=[F("path_length", min_length=4), F("truncate_count", max_count=5)]),
               dict(name="l", grid_n=3, n_mazes=110, seed=5), dict(name="m", grid_n=5, n_mazes=4, seed=0, maze_ctor="gen_percolation", maze_ctor_kwargs=dict(p=0.75))]
     return S
+
+
+def numeric_twin(spec: dict) -> dict:
+    """the same request with every numeric generator argument replaced by the EQUAL number of the other type (1 <-> 1.0, 0 <-> 0.0, 3 -> 3.0):
+    equal and equally hashed in Python, but a different request to the library (count vs proportion)"""
+    t = dict(spec); kw = dict(t.get("maze_ctor_kwargs", {}))
+    for k, v in kw.items():
+        if isinstance(v, bool): continue
+        if isinstance(v, int): kw[k] = float(v)
+        elif isinstance(v, float) and v.is_integer(): kw[k] = int(v)
+    t["maze_ctor_kwargs"] = kw
+    return t
 
 
 def perturb(hr: _pyrandom.Random, pool: list[dict], focus: dict | None = None) -> list[str]:
@@ -173,8 +189,9 @@ def perturb(hr: _pyrandom.Random, pool: list[dict], focus: dict | None = None) -
             if hr.random() < 0.6:
                 s["seed"] = hr.randrange(10**6)     # the same kind of dataset under another seed, and more of it
                 if s.get("grid_n", 9) <= 3: s["n_mazes"] = 30
+            if hr.random() < 0.3: s = numeric_twin(s)
             try: MazeDataset.generate(make_cfg(s))
-            except ValueError: pass    # a history step may hit the documented "no valid start or end positions" of sparse percolation mazes
+            except (ValueError, AssertionError): pass    # a history step may hit the documented "no valid start or end positions" of sparse percolation mazes
         elif a == "from_config":
             s = dict(focus if (focus is not None and hr.random() < 0.5) else hr.choice(pool))
             if hr.random() < 0.6: s["seed"] = hr.randrange(10**6)
@@ -325,13 +342,18 @@ def _child_sigs_after_history(spec_list, k):
         for j in range(3):
             h = dict(s); h["seed"] = hr.randrange(10**6); h["name"] = "other"
             if h.get("grid_n", 9) <= 4: h["n_mazes"] = 30
+            if j == 2: h = numeric_twin(h)
             try:
                 (MazeDataset.generate(make_cfg(h)) if j % 2 == 0 else MazeDataset.from_config(make_cfg(h), load_local=False, save_local=False, do_download=False))
-            except ValueError:
+            except (ValueError, AssertionError):
                 pass
         perturb(hr, spec_list, s)
         cfg = make_cfg(s)
-        out.append([sig(MazeDataset.generate(cfg)), sig(MazeDataset.from_config(cfg, load_local=False, save_local=False, do_download=False))])
+        def _sig_or_error(f):
+            try: return sig(f())
+            except Exception as ex: return f"raised {type(ex).__name__}: {str(ex)[:120]}"
+        out.append([_sig_or_error(lambda: MazeDataset.generate(cfg)),
+                    _sig_or_error(lambda: MazeDataset.from_config(cfg, load_local=False, save_local=False, do_download=False))])
     return out
 
 
